@@ -464,7 +464,13 @@ def extract_docstring(node: Str) -> Tuple[int, str]:
         # Lone surrogates (written with escapes like '\ud800') can't be written to the 
         # HTML pages, show them escaped like we do for the values of constants.
         value = value.encode('utf-8', 'backslashreplace').decode('utf-8')
-    return lineno, inspect.cleandoc(value)
+    doc = inspect.cleandoc(value)
+    # cleandoc() only strips the leading lines that are empty once dedented: drop the remaining
+    # whitespace-only lines, so the first line of the docstring is the line 'lineno' refers to.
+    lines = doc.split('\n')
+    while len(lines) > 1 and not lines[0].strip():
+        del lines[0]
+    return lineno, '\n'.join(lines)
 
 
 def infer_type(expr: ast.expr) -> Optional[ast.expr]:
